@@ -144,6 +144,18 @@ def judge_roundtrip(spec, rdclass, wire, rorigin, o, rel, style, probs, path="",
             probs.append(("%s/roundtrip%s/%s/%s" % (T, path, attr, cls),
                           "wire %s -> text %r -> wire %s (field %s: %r became %r)" % (w1.hex(), text, w2.hex(), attr, v, got)))
         return "not-equal"
+    if diag and spec.name in ("SVCB", "HTTPS") and not style:
+        # equivalent spelling: SvcParams may be written in any order (RFC 9460 2.1)
+        toks = TOKEN_RE.findall(text)
+        if len(toks) > 3:
+            text2 = " ".join(toks[:2] + toks[:1:-1])
+            try:
+                r3 = dns.rdata.from_text(rdclass, spec.rdtype, text2, origin=_lo(o), relativize=bool(rel))
+                if r3.to_wire(origin=oo) != w1:
+                    probs.append((T + "/roundtrip/params-reordered/differs", "text %r gives wire %s, same params in the order %r give %s" % (
+                        text, w1.hex(), text2, r3.to_wire(origin=oo).hex())))
+            except Exception as e:
+                probs.append(("%s/roundtrip/params-reordered/rejected/%s" % (T, type(e).__name__), "text %r is accepted, %r raises %s" % (text, text2, e)))
     same_relativity = (not o) or (bool(rorigin) == bool(rel)) or not spec.has_names()
     if same_relativity and (not (r2 == r) or r2 != r):
         probs.append(("%s/roundtrip%s/equal-wire-but-not-eq" % (T, path), "text %r parses to a record with equal wire form that is != the original" % text))
@@ -237,7 +249,7 @@ def judge_accepted(spec, rdclass, buf, off, rdlen, probs):
     return "accepted-text-ok"
 
 
-TOKEN_RE = re.compile(r'"(?:[^"\\]|\\.)*"|\S+')
+TOKEN_RE = re.compile(r'(?:"(?:[^"\\]|\\.)*"|\\.|[^\s"\\])+', re.S)
 REPL = ["0", "1", "255", "256", "65535", "65536", "4294967295", "4294967296", "281474976710656", "-1", "1.5", "nan", "inf",
         "-inf", "1e400", "1e10", "-1e10", "a", "A", "@", ".", "-", '""', "\\000", "\\255", "\\256", "nanm", "infm", "-100001m",
         "-100000.00m", "42849672.95m", "42849672.96m", "1e10m", "90000000.00m", "0.00m", "00", "aa", "AAAA", "=", "\\#", "TYPE1",
